@@ -98,6 +98,7 @@ FAMILIES["wire"] = {
                    220: "C16: a packet carrying another label (or a label header while the check is delegated) was acted on",
                    230: "C14: tampered/foreign traffic was acted on with a plaintext different from the original",
                    231: "C14: version byte of genuine ciphertext flipped: a different plaintext was accepted",
+                   232: "C14: traffic sealed under another label (associated data) was acted on",
                    240: "C13: packet path panicked",
                    250: "C11: assembled packet larger than the configured packet size", 251: "C11: receiver did not unpack exactly the piggy-backed messages"},
     "assumptions": ["AES-GCM open/seal results and LZW (de)compression enter the model as tables computed with the Go standard library / the package helpers for the bytes of each case",
@@ -105,9 +106,32 @@ FAMILIES["wire"] = {
                     "inline handlers (ping, indirect ping, ack, nack) are observed through their effects (reply sent, handler invoked), not their bodies"],
 }
 
+FAMILIES["stream"] = {
+    "name": "stream", "props": ["C09", "C12", "C13", "C14", "C15", "C16"], "models": "Stream.v, VerifyProto.v, Label.v",
+    "harness": COMMON + ["zz_vf_wire_test.go", "zz_vf_stream_test.go"], "test": "TestVfStream",
+    "n": {"quick": 5, "thorough": 120}, "no_shrink": True,
+    "env": {"VF_SHARD": "600"},
+    "codes": [(300, 300, ["C09"]), (301, 301, ["C12"]), (302, 305, ["C13"]), (306, 306, ["C14"]), (307, 307, ["C16"]),
+              (310, 329, ["C09"]), (330, 339, ["C15"])],
+    "code_names": {1: "undecodable case", 60: "stream acted on although the framing layer yields no message", 61: "verifyProtocol result differs from the model",
+                   62: "bytes written to the stream differ from the model's framing", 63: "panic outcome differs",
+                   300: "C09: a state exchange cut before its end changed the receiving side",
+                   301: "C12: the peer did not recover the complete message / state / payload from the stream",
+                   302: "C13: stream handler panicked", 303: "C13: undecodable stream changed membership", 304: "C13: connection left open",
+                   305: "C13: declared size beyond the cap was not refused before reading the data",
+                   306: "C14: tampered / foreign-key / removed-key stream had an effect", 307: "C16: stream carrying another label had an effect or got a reply",
+                   310: "C09: Join reported success but joiner and host do not list each other (and the host's members)",
+                   311: "C09: host-side veto / incompatibility: Join succeeded one-sidedly (host replied before verifying and merging)",
+                   312: "C09: failed Join changed the joiner's membership",
+                   320: "C09: verifyProtocol differs from the range-intersection specification",
+                   330: "C15: stream write does not open under the primary key with encryptMsg|length|label as associated data", 331: "C15: payload bytes visible in clear on the stream"},
+    "assumptions": ["the msgpack layer below the framing (headers, node states) is not modelled: its effects are observed on the real nodes",
+                    "AES-GCM results enter the model as tables computed with the Go standard library"],
+}
+
 # a property may be served by several families (run in order); the first is its primary one
 PROPS = {}
-for f, d in sorted(FAMILIES.items(), key=lambda kv: 0 if kv[0] in ("susp", "queue") else 1):
+for f, d in sorted(FAMILIES.items(), key=lambda kv: 0 if kv[0] in ("susp", "queue", "wire", "stream") else 1):
     for p in d["props"]:
         PROPS.setdefault(p, []).append(f)
 PRIMARY = {"C06": "susp", "C09": "stream"}
